@@ -352,7 +352,10 @@ func (b *Builder) buildTransitions(tableIdx int, closure []closureEntry) error {
 				class := b.nfa.ByteClasses().Get(byte(by))
 				// Check for conflict
 				if existing, ok := byteTransitions[class]; ok {
-					if existing.targetNFA != next {
+					// Same target via two paths that set different capture slots
+					// is ambiguous as well (`(aa*)*`: the second a continues a* or
+					// starts a new iteration).
+					if existing.targetNFA != next || existing.slots != entry.slots {
 						return ErrNotOnePass
 					}
 					// Merge source slots (multiple paths to same transition)
@@ -375,7 +378,7 @@ func (b *Builder) buildTransitions(tableIdx int, closure []closureEntry) error {
 					class := b.nfa.ByteClasses().Get(byte(by))
 					// Check for conflict
 					if existing, ok := byteTransitions[class]; ok {
-						if existing.targetNFA != trans.Next {
+						if existing.targetNFA != trans.Next || existing.slots != entry.slots {
 							return ErrNotOnePass
 						}
 						byteTransitions[class] = transInfo{
